@@ -243,7 +243,7 @@ func (p *Pool) Usable() (v4, v6 int64) {
 					if x < 0 {
 						return 0
 					}
-					return (x/256+1) + (x+1)/256
+					return (x/256 + 1) + (x+1)/256
 				}
 				n = new(big.Int).Sub(n, big.NewInt(cnt(hi)-cnt(lo-1)))
 			}
@@ -257,7 +257,7 @@ func (p *Pool) Usable() (v4, v6 int64) {
 
 // ---- services ----
 
-func SharingKey(svc *v1.Service) string { return ann(svc, annSharing, annSharingOld) }
+func SharingKey(svc *v1.Service) string  { return ann(svc, annSharing, annSharingOld) }
 func DesiredPool(svc *v1.Service) string { return ann(svc, annPool, annPoolOld) }
 
 // Family requirements of a service.
